@@ -58,32 +58,38 @@ Inductive out :=
 
 Definition absle (a b tol : Q) : bool := Qle_bool (Qabs (a - b)) tol.
 
-Definition weighted_charge (d : list Q) : Q := charge_sum_from 0 d.
+(* sums with the running value kept in lowest terms (same value as Qsum / charge_sum_from) *)
+Definition sum_red (l : list Q) : Q := fold_left (fun acc x => Qred (acc + x)) l 0.
+Fixpoint weigh_from (k : nat) (l : list Q) : list Q :=
+  match l with [] => [] | v :: t => qnat k * v :: weigh_from (S k) t end.
+Definition weighted_charge (d : list Q) : Q := sum_red (weigh_from 0 d).
+Definition species_charge_red (sp : list (list Q)) : Q := sum_red (map weighted_charge sp).
 
 Definition check_out (p : point) (f : list Q) (o : out) : bool :=
   match o with
   | OFrac tol g =>
       forallb2 (fun m v => absle m v tol) f g
       && forallb (fun v => Qle_bool (- tol) v && Qle_bool v (1 + tol)) g
-      && absle (Qsum g) 1 (tol * qnat (S (pZ p)))
+      && absle (sum_red g) 1 (tol * qnat (S (pZ p)))
   | ODens tol n_el d =>
       forallb2 (fun m v => absle (m * n_el) v (tol * n_el)) f d
-      && absle (Qsum d) n_el (tol * qnat (S (pZ p)) * n_el)
+      && absle (sum_red d) n_el (tol * qnat (S (pZ p)) * n_el)
   | ONeut tol sp d =>
       let zm := weighted_charge f in
-      let e := element_ne (p_ne p) sp in
-      let n_i := e / zm in
-      let amp := 1 + qnat (pZ p * S (pZ p)) / zm in       (* error amplification through 1/z_mean *)
-      let ntot := Qsum d in
+      let sc := species_charge_red sp in
+      let e := Qred (let e := p_ne p - sc in if Qle_bool 0 e then e else 0) in     (* = element_ne (p_ne p) sp *)
+      let n_i := Qred (e / zm) in
+      let amp := Qred (1 + qnat (pZ p * S (pZ p)) / zm) in       (* error amplification through 1/z_mean *)
+      let ntot := sum_red d in
       forallb (Qle_bool 0) d
       (* charge of the returned densities + the given species = n_e (when that is feasible) *)
-      && (if Qle_bool (species_charge sp) (p_ne p)
-          then absle (weighted_charge d + species_charge sp) (p_ne p) (pow2 (-40) * p_ne p)
+      && (if Qle_bool sc (p_ne p)
+          then absle (weighted_charge d + sc) (p_ne p) (pow2 (-40) * p_ne p)
           else forallb (fun v => Qeq_bool v 0) d)
       (* the shape is the closed form *)
       && forallb2 (fun m v => absle (m * ntot) v (tol * ntot)) f d
-      (* and the values are the model's *)
-      && forallb2 (fun m v => absle (m * n_i) v (tol * amp * n_i)) f d
+      (* and the values are the model's match_neutrality_point *)
+      && forallb2 (fun m v => absle (m * n_i) v (Qred (tol * amp * n_i))) f d
   | OLerp tol w other sa sb v =>
       let smax := if Qle_bool sa sb then sb else sa in
       forallb2 (fun ab x => absle ((1 - w) * (fst ab * sa) + w * (snd ab * sb)) x (tol * smax))
